@@ -253,11 +253,14 @@ def playback(group, paths, harness, scratch_tag="pb"):
     short = harness.split("::")[-1]
     src_dir = paths["harness_core"] if group["crate"] == "core" else os.path.join(paths["packet"], "src")
     target_file = None
-    for fn in sorted(os.listdir(src_dir)):
-        if fn.endswith(".rs") and fn not in ("common.rs", "sockets.rs") and re.search(
-                r"\b%s\b" % re.escape(short), open(os.path.join(src_dir, fn)).read()):
-            # (harnesses are often generated by a macro: match the bare name, not `fn name(`)
-            target_file = os.path.join(src_dir, fn)
+    # a harness is either written out (`fn name(`) or generated by a macro (`some_macro!(name, ...`)
+    for pat in (r"fn %s\s*\(" % re.escape(short), r"!\(\s*%s\b" % re.escape(short)):
+        for fn in sorted(os.listdir(src_dir)):
+            if fn.endswith(".rs") and fn not in ("common.rs", "sockets.rs") and re.search(
+                    pat, open(os.path.join(src_dir, fn)).read()):
+                target_file = os.path.join(src_dir, fn)
+                break
+        if target_file:
             break
     if target_file is None:
         # macro-generated harness: put the test in the module named by the harness path
